@@ -396,3 +396,152 @@ Proof. intros Hrank.
     + destruct H as [Hi ->]. rewrite !Hold; auto; [|apply (HwfE _ Hi)]. pose proof (Hrank _ _ Hi). lia.
   - rewrite Hl. eauto. Qed.
 End MkModel.
+
+(* ------------------------------------------------------------------ algebraic laws (graphs as sets of nodes / edges) *)
+Lemma indeg_ext E1 E2 v : NoDup E1 -> NoDup E2 -> (forall e, In e E1 <-> In e E2) -> indeg E1 v = indeg E2 v.
+Proof. intros H1 H2 HE. unfold indeg. apply Permutation_length. apply NoDup_Permutation; try now apply parents_nodup.
+  intros p. rewrite !parents_In. apply HE. Qed.
+
+Lemma wrapped_ext isc E1 E2 v : NoDup E1 -> NoDup E2 -> (forall e, In e E1 <-> In e E2) -> wrapped isc E1 v = wrapped isc E2 v.
+Proof. intros H1 H2 HE. unfold wrapped. rewrite (indeg_ext E1 E2 v H1 H2 HE). reflexivity. Qed.
+
+(* concat_multi_inputs depends only on the SETS of nodes and edges it is given (same naming of the new Concats) *)
+Lemma cmi_ext isc nm V1 V2 E1 E2 :
+  (forall x, In x V1 <-> In x V2) -> NoDup E1 -> NoDup E2 -> (forall e, In e E1 <-> In e E2) ->
+  (forall x, In x (fst (cmi isc nm V1 E1)) <-> In x (fst (cmi isc nm V2 E2))) /\
+  (forall e, In e (snd (cmi isc nm V1 E1)) <-> In e (snd (cmi isc nm V2 E2))).
+Proof. intros HV H1 H2 HE. split.
+  - intros x. rewrite !cmi_V'_In. split.
+    + intros [H|[v [Hv [Hw ->]]]]; [left; apply HV; auto|]. right. exists v. rewrite <- (wrapped_ext isc E1 E2 v) by assumption.
+      split; [apply HV; auto|auto].
+    + intros [H|[v [Hv [Hw ->]]]]; [left; apply HV; auto|]. right. exists v. rewrite (wrapped_ext isc E1 E2 v) by assumption.
+      split; [apply HV; auto|auto].
+  - intros [p c]. rewrite !cmi_E'_In. split; intros [v [Hv H]]; exists v; (split; [apply HV; exact Hv|]).
+    + rewrite <- (wrapped_ext isc E1 E2 v) by assumption. destruct (wrapped isc E1 v); rewrite <- (HE (p, v)); exact H.
+    + rewrite (wrapped_ext isc E1 E2 v) by assumption. destruct (wrapped isc E2 v); rewrite (HE (p, v)); exact H.
+Qed.
+
+(* renaming the inserted Concats: the graph built with names nm2 is the image of the graph built with names nm1
+   under any [rho] that fixes the operand nodes and sends nm1 v to nm2 v *)
+Lemma cmi_rename isc nm1 nm2 (rho : node -> node) V E : wf V E ->
+  (forall p, In p V -> rho p = p) -> (forall v, In v V -> rho (nm1 v) = nm2 v) ->
+  (forall x, In x (fst (cmi isc nm2 V E)) <-> exists y, In y (fst (cmi isc nm1 V E)) /\ x = rho y) /\
+  (forall p c, In (p, c) (snd (cmi isc nm2 V E)) <->
+               exists p0 c0, In (p0, c0) (snd (cmi isc nm1 V E)) /\ p = rho p0 /\ c = rho c0).
+Proof. intros Hwf Hfix Hmap. split.
+  - intros x. rewrite cmi_V'_In. split.
+    + intros [H|[v [Hv [Hw ->]]]].
+      * exists x. rewrite cmi_V'_In. split; auto. symmetry; auto.
+      * exists (nm1 v). rewrite cmi_V'_In. split; [right; eauto|]. symmetry; auto.
+    + intros [y [Hy ->]]. apply cmi_V'_In in Hy as [H|[v [Hv [Hw ->]]]].
+      * left. rewrite Hfix; auto.
+      * right. exists v. rewrite Hmap; auto.
+  - intros p c. rewrite cmi_E'_In. split.
+    + intros [v [Hv H]]. destruct (wrapped isc E v) eqn:Hw.
+      * destruct H as [[Hi ->]|[-> ->]].
+        -- exists p, (nm1 v). rewrite cmi_E'_In. split; [exists v; rewrite Hw; auto|].
+           split; [symmetry; apply Hfix, (Hwf _ Hi) | symmetry; auto].
+        -- exists (nm1 v), v. rewrite cmi_E'_In. split; [exists v; rewrite Hw; auto|].
+           split; symmetry; auto.
+      * destruct H as [Hi ->]. exists p, v. rewrite cmi_E'_In. split; [exists v; rewrite Hw; auto|].
+        split; symmetry; [apply Hfix, (Hwf _ Hi) | auto].
+    + intros [p0 [c0 [H [-> ->]]]]. apply cmi_E'_In in H as [v [Hv H]]. exists v. split; auto.
+      destruct (wrapped isc E v) eqn:Hw.
+      * destruct H as [[Hi ->]|[-> ->]].
+        -- left. rewrite (Hfix p0) by apply (Hwf _ Hi). auto.
+        -- right. auto.
+      * destruct H as [Hi ->]. rewrite (Hfix p0) by apply (Hwf _ Hi). auto.
+Qed.
+
+Lemma rename_exists nm1 nm2 V : (forall v, In v V -> ~ In (nm1 v) V) ->
+  (forall u v, In u V -> In v V -> nm1 u = nm1 v -> u = v) ->
+  exists rho : node -> node, (forall p, In p V -> rho p = p) /\ (forall v, In v V -> rho (nm1 v) = nm2 v).
+Proof. intros Hfresh Hinj.
+  exists (fun y => match find (fun v => Nat.eqb (nm1 v) y) V with Some v => nm2 v | None => y end). split.
+  - intros p Hp. destruct (find _ V) as [v0|] eqn:Hf; auto. apply find_some in Hf as [Hv0 Hq]. apply Nat.eqb_eq in Hq.
+    exfalso. apply (Hfresh _ Hv0). rewrite Hq. exact Hp.
+  - intros v Hv. destruct (find _ V) as [v0|] eqn:Hf.
+    + apply find_some in Hf as [Hv0 Hq]. apply Nat.eqb_eq in Hq. apply Hinj in Hq; [subst; reflexivity|assumption|assumption].
+    + exfalso. pose proof (find_none _ _ Hf v Hv) as Hn. simpl in Hn. rewrite Nat.eqb_refl in Hn. discriminate.
+Qed.
+
+(* a & b  and  b & a : same graph up to the names of the inserted Concats *)
+Theorem merge_comm isc nm1 nm2 (a b : value) :
+  let G1 := merge_graph a b in let G2 := merge_graph b a in
+  wf (fst G1) (snd G1) ->
+  (forall v, In v (fst G1) -> ~ In (nm1 v) (fst G1)) ->
+  (forall u v, In u (fst G1) -> In v (fst G1) -> nm1 u = nm1 v -> u = v) ->
+  exists rho : node -> node,
+    (forall p, In p (fst G1) -> rho p = p) /\
+    (forall x, In x (fst (cmi isc nm2 (fst G2) (snd G2))) <-> exists y, In y (fst (cmi isc nm1 (fst G1) (snd G1))) /\ x = rho y) /\
+    (forall p c, In (p, c) (snd (cmi isc nm2 (fst G2) (snd G2))) <->
+                 exists p0 c0, In (p0, c0) (snd (cmi isc nm1 (fst G1) (snd G1))) /\ p = rho p0 /\ c = rho c0).
+Proof. intros G1 G2 Hwf Hfresh Hinj.
+  destruct (rename_exists nm1 nm2 (fst G1) Hfresh Hinj) as [rho [Hfix Hmap]]. exists rho. split; auto.
+  destruct (merge_graph_spec a b) as [HV1 [HE1 [_ Hnd1]]]. destruct (merge_graph_spec b a) as [HV2 [HE2 [_ Hnd2]]].
+  destruct (cmi_ext isc nm2 (fst G2) (fst G1) (snd G2) (snd G1)) as [HxV HxE]; auto.
+  { intros x. unfold G1, G2. rewrite HV1, HV2. tauto. }
+  { intros e. unfold G1, G2. rewrite HE1, HE2. tauto. }
+  destruct (cmi_rename isc nm1 nm2 rho (fst G1) (snd G1) Hwf Hfix Hmap) as [HrV HrE].
+  split; [intros x; rewrite HxV; apply HrV | intros p c; rewrite HxE; apply HrE]. Qed.
+
+(* m & m = m : a model whose non-Concat nodes all have at most one parent (every model built by mk_model, see
+   cmi_indeg_le_1) is reproduced exactly — no new Concat at all *)
+Theorem merge_idem isc nm (m : model) :
+  let V := mNodes m in let E := mEdges m in
+  NoDup E -> wf V E -> (forall x, In x V -> isc x = false -> indeg E x <= 1) ->
+  let G := merge_graph (VModel m) (VModel m) in
+  (forall x, In x (fst (cmi isc nm (fst G) (snd G))) <-> In x V) /\
+  (forall e, In e (snd (cmi isc nm (fst G) (snd G))) <-> In e E).
+Proof. intros V E HndE Hwf Hdeg G.
+  destruct (merge_graph_spec (VModel m) (VModel m)) as [HV1 [HE1 [_ Hnd1]]].
+  destruct (cmi_ext isc nm (fst G) V (snd G) E) as [HxV HxE]; auto.
+  { intros x. unfold G. rewrite HV1. simpl. tauto. }
+  { intros e. unfold G. rewrite HE1. simpl. tauto. }
+  assert (Hnw : forall v, In v V -> wrapped isc E v = false).
+  { intros v Hv. unfold wrapped. destruct (isc v) eqn:Hc; [apply andb_false_r|].
+    pose proof (Hdeg v Hv Hc) as Hd. apply Nat.ltb_ge in Hd. rewrite Hd. reflexivity. }
+  split.
+  - intros x. rewrite HxV, cmi_V'_In. split; [|auto]. intros [H|[v [Hv [Hw _]]]]; auto. rewrite Hnw in Hw; [discriminate|auto].
+  - intros [p c]. rewrite HxE, cmi_E'_In. split.
+    + intros [v [Hv H]]. rewrite Hnw in H by auto. destruct H as [Hi ->]. auto.
+    + intros Hi. exists c. pose proof (proj2 (Hwf _ Hi)) as Hc. simpl in Hc. rewrite Hnw by auto. auto.
+Qed.
+
+(* acceptance depends only on the operand graph as a set: an accepted graph is rankable, a rankable one is accepted *)
+Lemma mk_model_ok_rank isc nm V E m : wf V E -> mk_model isc nm V E = Ok m ->
+  exists rank : node -> nat, forall u v, In (u, v) E -> rank u < rank v.
+Proof. intros Hwf Hm. destruct (mk_model_sound isc nm V E Hwf m Hm) as [HE [Hnd [_ [Hf _]]]].
+  exists (fun x => idx x (mNodes m)). intros u v Hi. pose proof (cmi_edge_image isc nm V E Hwf u v Hi) as H.
+  rewrite <- HE in H. destruct (wrapped isc E v).
+  - destruct H as [H1 H2]. pose proof (before_idx _ _ _ Hnd (Hf _ _ H1)). pose proof (before_idx _ _ _ Hnd (Hf _ _ H2)). lia.
+  - apply before_idx; auto. Qed.
+
+Theorem merge_comm_status isc nm1 nm2 (a b : value) :
+  let G1 := merge_graph a b in let G2 := merge_graph b a in
+  wf (fst G1) (snd G1) ->
+  (forall v, In v (fst G2) -> ~ In (nm2 v) (fst G2)) ->
+  (forall u v, In u (fst G2) -> In v (fst G2) -> nm2 u = nm2 v -> u = v) ->
+  (exists m, merge isc nm1 a b = Ok m) -> exists m', merge isc nm2 b a = Ok m'.
+Proof. cbv zeta. intros Hwf Hfresh Hinj [m Hm].
+  destruct (merge_graph_spec a b) as [HV1 [HE1 _]]. destruct (merge_graph_spec b a) as [HV2 [HE2 _]].
+  unfold merge in *. destruct (merge_graph a b) as [V1 E1]. destruct (merge_graph b a) as [V2 E2]. simpl in *.
+  destruct (mk_model_ok_rank isc nm1 V1 E1 m Hwf Hm) as [rank Hr].
+  assert (HEE : forall e, In e E2 -> In e E1) by (intros e; rewrite HE1, HE2; tauto).
+  assert (HVV : forall x, In x V1 -> In x V2) by (intros x; rewrite HV1, HV2; tauto).
+  apply (mk_model_dag_accepted isc nm2 V2 E2) with (rank := rank); [|assumption|assumption|].
+  - intros e He. destruct (Hwf e (HEE e He)). auto.
+  - intros u v Hi. apply Hr, HEE, Hi. Qed.
+
+(* the boolean used by the correspondence runner on the OBSERVED order really says "topological order" *)
+Lemma nodupb_NoDup l : nodupb l = true -> NoDup l.
+Proof. induction l as [|x l IH]; simpl; intros H; constructor.
+  - apply andb_true_iff in H as [H _]. apply negb_true_iff in H. now apply mem_false.
+  - apply IH. apply andb_true_iff in H. tauto. Qed.
+
+Lemma is_topo_sound l E : is_topo l E = true ->
+  NoDup l /\ forall u v, In (u, v) E -> In u l /\ In v l /\ idx u l < idx v l.
+Proof. unfold is_topo. intros H. apply andb_true_iff in H as [H1 H2]. split; [now apply nodupb_NoDup|].
+  intros u v Hi. rewrite forallb_forall in H2. specialize (H2 _ Hi). simpl in H2.
+  apply andb_true_iff in H2 as [H2 H3]. apply andb_true_iff in H2 as [H2 H4].
+  apply mem_In in H2. apply mem_In in H4. apply Nat.ltb_lt in H3. auto. Qed.
